@@ -410,10 +410,10 @@ def cell_of(E, mesh, p):
 
 # ======================================================================= Mesh.__init__
 def cell_tol(E, cell):
-    m = R(cell[0])
-    for c in cell[1:]:
-        m = z3.If(R(c) < m, R(c), m)
-    return m * z3.RealVal('1/1000')
+    """tolerance of the whole-number-of-cells test, per direction: 0.1 % of that direction's cell (a tolerance tied to the
+    SMALLEST cell of all directions rejected meshes with very different cell sizes whose large-cell edges are whole numbers of
+    cells up to rounding - genuine defect found by the bounded tier, repaired in /repo)"""
+    return [R(c) * z3.RealVal('1/1000') for c in cell]
 
 
 class MeshInit(Contract):
@@ -533,7 +533,7 @@ class MeshInit(Contract):
             tol = cell_tol(E, st.cell)
             positive = conj([R(c) > 0 for c in st.cell])
             rem = s._rem(E, st)
-            band = [z3.And(r_ > tol, r_ < R(c) - tol) for r_, c in zip(rem, st.cell)]
+            band = [z3.And(r_ > t_, r_ < R(c) - t_) for r_, c, t_ in zip(rem, st.cell, tol)]
             out.append(('ValueError', z3.And(positive, disj(band))))
         elif st.n is not None and st.cell is None:
             if len(st.n) != d:
@@ -630,7 +630,7 @@ class MeshInit(Contract):
             tol = cell_tol(E, st.cell)
             for j, (e, c, k) in enumerate(zip(s._edges(st), st.cell, nn.elems)):
                 out.append((f'n[{j}] >= 1', I(k) >= 1))
-                out.append((f'|edges[{j}] - n[{j}]*cell[{j}]| <= 1e-3*min(cell)', z3.And(e - R(k) * R(c) <= tol, R(k) * R(c) - e <= tol)))
+                out.append((f'|edges[{j}] - n[{j}]*cell[{j}]| <= 1e-3*cell[{j}]', z3.And(e - R(k) * R(c) <= tol[j], R(k) * R(c) - e <= tol[j])))
             if getattr(st, 'commensurate_n', None) is not None:
                 for j, (k, k0) in enumerate(zip(nn.elems, st.commensurate_n)):
                     out.append((f'edges a whole number of cells => accepted with n[{j}] = edges/cell', I(k) == I(k0)))
